@@ -15,7 +15,7 @@ RULE = ("(unroll) seeded acyclic circuits x injective output->input pairings x n
         "evaluated bit-parallel; distinct = canonical net + configuration; non-trivial = some observed output at the "
         "last step depends on a step-0 signal through the state")
 PROBES = ["n=1", "state_output_is_primary_input", "flop_feeds_flop", "initial:None", "initial:0", "initial:1",
-          "initial:dict", "add_flop_outputs", "remove_unloaded", "keep_unloaded", "unroll", "sequential", "ignore_pins"]
+          "initial:dict", "add_flop_outputs", "remove_unloaded", "keep_unloaded", "unroll", "sequential", "ignore_pins", "repeated_call_same_objects"]
 ASSUMPTIONS = ["<= 12 free bits in total (state + n x inputs), <= 4 state bits, n <= 6"]
 TIME_UNIT = "circuit clock cycles executed by the reference state machine"
 
@@ -63,6 +63,7 @@ def gen(rng, tier):
     return {"kind": "sequential", "net": net, "n": rng.randint(1, 5), "d": "d", "q": "q",
             "ignore_pins": rng.choice((None, [p for p in pins_in if p != "d"], "clk")),
             "add_flop_outputs": rng.random() < 0.5, "initial_values": iv, "remove_unloaded": rng.random() < 0.6,
+            "repeat_first": rng.random() < 0.35,
             "peer": {"seed": rng.getrandbits(32)}}
 
 
@@ -92,9 +93,16 @@ def run(case, ctx):
         if any(nodes[k][0] == "input" for k in sio):
             ctx.probe("state_output_is_primary_input")
         sig = {"kind": "unroll", "k_is_input": any(nodes[k][0] == "input" for k in sio)}
-        res = ctx.call("C09.unroll_raises", sig, cg.tx.unroll, c, n, dict(sio), prefix=case["prefix"])
+        sio_obj = dict(sio)
+        res = ctx.call("C09.unroll_raises", sig, cg.tx.unroll, c, n, sio_obj, prefix=case["prefix"])
         uc, io_map = res
         us = ref.snapshot(uc)
+        # the caller keeps using its own argument objects: a second call with the very same objects must give the
+        # same circuit (catches arguments consumed or edited by the first call)
+        res2 = ctx.call("C09.unroll_raises", dict(sig, repeat=True), cg.tx.unroll, c, n, sio_obj, prefix=case["prefix"])
+        if ref.snapshot(res2[0]) != us or res2[1] != io_map:
+            ctx.violate("C09.repeat_call", f"a second unroll() call with the same argument objects gives a different result "
+                        f"(state_io object is now {sio_obj})", dict(sig, repeat=True))
         ctx.log("unroll", state_digest(uc), sorted((k, v) for k, v in io_map.items()))
         if ref.snapshot(c) != before:
             ctx.violate("C09.mutated_arg", "unroll changed its argument", sig)
@@ -189,8 +197,19 @@ def run(case, ctx):
         raise Skip("too many free bits")
     sig = {"kind": "sequential", "iv": "None" if iv is None else ("dict" if isinstance(iv, dict) else iv),
            "add_flop_outputs": case["add_flop_outputs"], "remove_unloaded": case["remove_unloaded"]}
-    res = ctx.call("C09.sequential_raises", sig, cg.tx.sequential_unroll, c, n, d, q, ignore_pins=case["ignore_pins"],
-                   add_flop_outputs=case["add_flop_outputs"], initial_values=iv if iv is None or isinstance(iv, str) else dict(iv),
+    iv_obj = iv if iv is None or isinstance(iv, str) else dict(iv)
+    ip_obj = list(case["ignore_pins"]) if isinstance(case["ignore_pins"], list) else case["ignore_pins"]
+    repeat_first = bool(case.get("repeat_first"))
+    if repeat_first:
+        # history: an earlier call (shallower unrolling) made with the very same argument objects, as in a
+        # deepening loop `for n in 1..N: sequential_unroll(c, n, ..., initial_values=my_dict)`
+        ctx.call("C09.sequential_raises", dict(sig, repeat=True), cg.tx.sequential_unroll, c, max(1, n - 1), d, q,
+                 ignore_pins=ip_obj, add_flop_outputs=case["add_flop_outputs"], initial_values=iv_obj,
+                 remove_unloaded=case["remove_unloaded"])
+        ctx.probe("repeated_call_same_objects")
+        sig["repeat"] = True
+    res = ctx.call("C09.sequential_raises", sig, cg.tx.sequential_unroll, c, n, d, q, ignore_pins=ip_obj,
+                   add_flop_outputs=case["add_flop_outputs"], initial_values=iv_obj,
                    remove_unloaded=case["remove_unloaded"])
     uc, io_map = res
     us = ref.snapshot(uc)
@@ -267,7 +286,7 @@ def run(case, ctx):
 
 
 def sig_key(sig):
-    return (sig.get("kind"), sig.get("exc"), sig.get("k_is_input"), sig.get("iv"))
+    return (sig.get("kind"), sig.get("exc"), sig.get("k_is_input"), sig.get("iv"), sig.get("repeat"))
 
 
 def shrink(case):
@@ -284,7 +303,8 @@ def shrink(case):
             sio = {k: v for k, v in case["state_io"].items() if k in outs and v in ins}
             yield dict(case, net=net, state_io=sio)
         return
-    for key, val in (("ignore_pins", None), ("add_flop_outputs", False), ("initial_values", None), ("remove_unloaded", False)):
+    for key, val in (("ignore_pins", None), ("add_flop_outputs", False), ("initial_values", None), ("remove_unloaded", False),
+                     ("repeat_first", False)):
         if case[key] != val:
             yield dict(case, **{key: val})
     for net in G.shrink_net(case["net"]):
